@@ -5,8 +5,11 @@ with the suspected trigger removed no longer produces the report) - never by see
 from vlib import common
 
 
-def _replay_has(spec, ops, key, stop_on_taint=None, **kw):
+def _replay_has(spec, ops, key, stop_on_taint=None, replayer=None, **kw):
     from vlib import hops
+    if replayer is not None:
+        # the check owns the way its histories are executed (e.g. C33: entities with lifecycle hooks)
+        return any((r.monitor, r.kind) == key for r in replayer(ops, kw.get('force_load')))
     d = common.scratch_dir()
     try:
         eng = hops.replay_ops(spec, ops, d, name='cls', stop_on_taint=stop_on_taint, **kw)
@@ -28,7 +31,7 @@ def classify(pid, report, eng, ops):
         # would make any other defect that needs a pk-only object disappear as well, and hide it behind this id.)
         if (det.get('seed_reassigned') or det.get('seed_deleted')) and \
                 not _replay_has(eng.spec, ops, key, stop_on_taint=eng.stop_on_taint, force_load='targeted',
-                                **getattr(eng, 'replay_kw', {})):
+                                replayer=getattr(eng, 'replayer', None), **getattr(eng, 'replay_kw', {})):
             return pid + '-UNLOADED-SEED-REVERSE-NOT-MAINTAINED'
 
         # an object deleted (directly or by cascade) while the session only had it as a pk-only seed / not loaded
